@@ -36,6 +36,8 @@ type ServerOpts struct {
 	Relay         bool   // the client connects through a segment-choosing relay (Env only)
 	// WriteTimeout: the adapter's <writetimeout> setting (0 = default: none)
 	WriteTimeout time.Duration
+	// ReadTimeout: the adapter's <readtimeout> setting (0 = default: none)
+	ReadTimeout time.Duration
 }
 
 type Server struct {
@@ -67,7 +69,7 @@ func StartServer(disp any, imp any, o ServerOpts) (*Server, error) {
 	p := tars.VerifBindDefaultApp(tars.NewTarsProtocol(d, imp, o.WithContext))
 	conf := &transport.TarsServerConf{
 		Proto: o.Proto, Address: o.Host + ":0", MaxInvoke: o.MaxInvoke, QueueCap: o.QueueCap,
-		AcceptTimeout: 500 * time.Millisecond, HandleTimeout: o.HandleTimeout, IdleTimeout: 600 * time.Second, WriteTimeout: o.WriteTimeout,
+		AcceptTimeout: 500 * time.Millisecond, HandleTimeout: o.HandleTimeout, IdleTimeout: 600 * time.Second, WriteTimeout: o.WriteTimeout, ReadTimeout: o.ReadTimeout,
 		TCPNoDelay: true, TCPReadBuffer: 128 << 10, TCPWriteBuffer: 128 << 10,
 	}
 	srv := transport.NewTarsServer(p, conf)
